@@ -325,7 +325,13 @@ func ClientRun(osenv *rsyncos.Env, opts *rsyncopts.Options, conn io.ReadWriter, 
 			}
 		}
 
-		stats, err := st.Do(crd, cwr, FileSystemRoot, paths, nil)
+		// We are the sender, so we apply the filter rules ourselves
+		// (they are only sent to the other side when it is the sender).
+		excl, err := sender.ParseFilterRules(opts.FilterRules())
+		if err != nil {
+			return nil, err
+		}
+		stats, err := st.Do(crd, cwr, FileSystemRoot, paths, excl)
 		if err != nil {
 			return nil, err
 		}
